@@ -28,6 +28,8 @@ def sh(cmd, cwd, env=None, timeout=1800):
 
 
 def main():
+    import signal
+    signal.alarm(2400)      # never hang a batch run: a stuck evaluation is killed (and shows up as a missing result line)
     seed = os.path.abspath(sys.argv[1])
     refresh = "--refresh" in sys.argv      # re-score an already kept seed: only meta.json's `checks` is rewritten
     confirm = "--no-confirm" not in sys.argv and not refresh
